@@ -48,8 +48,9 @@ def run(case, rendering):
     outs = []
     for fi, f in enumerate(case["frames"]):
         ego = f["ego"] if rendering == "map" else None
-        est = [to_map(d, f["ego"]) for d in f["est"]] if rendering == "map" else f["est"]
-        gt = [to_map(d, f["ego"]) for d in f["gt"]] if rendering == "map" else f["gt"]
+        arr = bool(case.get("array_positions"))      # map-frame positions as ndarrays (what the library's own conversion to the map frame produces)
+        est = [dict(to_map(d, f["ego"]), array_position=arr) for d in f["est"]] if rendering == "map" else f["est"]
+        gt = [dict(to_map(d, f["ego"]), array_position=arr) for d in f["gt"]] if rendering == "map" else f["gt"]
         fr, _, _, _ = frames.frame_result(est, gt, ego=ego, task=case["task"], targets=TARGETS, crit=case["crit"], pass_thr=[case["thr"]] * 3,
                                           metrics=dict(center_distance_thresholds=[[case["thr"]] * 3], plane_distance_thresholds=[[case["thr"]] * 3]),
                                           frame_name=str(fi), unix_time=fi * 100000, previous=prev, registry=not (rendering == "ego" and case.get("no_registry")))
@@ -96,7 +97,7 @@ def gen(rng):
     for _ in range(2 if task == "tracking" else 1):
         est, gt = scene(pool)
         frs.append(dict(est=est, gt=gt, ego=dict(x=round(rng.uniform(-50, 50), 2), y=round(rng.uniform(-50, 50), 2), yaw=round(rng.uniform(-3.1, 3.1), 3))))
-    return dict(task=task, frames=frs, thr=1.0, crit=dict(max_x_position_list=[10.0] * 3, max_y_position_list=[10.0] * 3), no_registry=rng.random() < 0.5)
+    return dict(task=task, frames=frs, thr=1.0, crit=dict(max_x_position_list=[10.0] * 3, max_y_position_list=[10.0] * 3), no_registry=rng.random() < 0.5, array_positions=rng.random() < 0.4)
 
 
 def search(item, seed):
